@@ -141,6 +141,42 @@ func c17One(r *core.Run, opts map[string]string, viaParser bool, variant string)
 			}
 		}
 	}
+	// ---- history: the address handed out is the caller's; what it does with it must not reach a later,
+	// independent lookup of the same literal (H2), and a later lookup must not overwrite it (H1)
+	if ipa, ok := addr.(*net.IPAddr); ok && herr == nil && ipa != nil {
+		render := func(a net.Addr) string {
+			x, ok := a.(*net.IPAddr)
+			if !ok || x == nil {
+				return fmt.Sprintf("%T", a)
+			}
+			return fmt.Sprintf("%x|%s", []byte(x.IP), x.Zone)
+		}
+		before := render(ipa)
+		var a2 net.Addr
+		if ra2, err := c17Addr(opts, viaParser); err == nil && ra2 != nil {
+			a2, _ = ra2.Host()
+		}
+		if render(ipa) != before {
+			bad("host-result-changed-after-a-later-call", fmt.Sprintf("host %q: the address returned by Host() changed when Host() was called on another value with the same options", host))
+		}
+		for _, x := range []net.Addr{ipa, a2} {
+			if y, ok := x.(*net.IPAddr); ok && y != nil {
+				for i := range y.IP {
+					y.IP[i] ^= 0xA5
+				}
+				y.Zone = "scribbled"
+			}
+		}
+		if ra3, err := c17Addr(opts, viaParser); err == nil && ra3 != nil {
+			a3, e3 := ra3.Host()
+			if e3 != nil || render(a3) != before {
+				bad("host-result-depends-on-earlier-callers", fmt.Sprintf("host %q: after earlier callers overwrote the addresses they had been given, Host() on a fresh value returns %v (err %v)", host, a3, e3))
+			}
+			if ra3.HasValidHost() != valid || ra3.IPVersion() != ver {
+				bad("host-result-depends-on-earlier-callers", fmt.Sprintf("host %q: HasValidHost/IPVersion changed after earlier callers overwrote their results", host))
+			}
+		}
+	}
 	// ---- port
 	ps, perr := ra.Port()
 	pvalid := ra.HasValidPort()
@@ -176,6 +212,19 @@ func c17One(r *core.Run, opts map[string]string, viaParser bool, variant string)
 			gs, err := got.Data()
 			if got == nil || err != nil || gs != want {
 				bad("getoption", fmt.Sprintf("GetOption(%q) = %q (err %v), stored value %q", k, gs, err, want))
+			}
+			// history: overwrite the returned string's bytes, then look the key up on a fresh value
+			if rx, err := c17Addr(opts, viaParser); err == nil && rx != nil { // (on its own value: an accessor may legitimately expose its receiver's storage)
+				gx := rx.GetOption(ks)
+				for i := range gx {
+					gx[i] ^= 0xA5
+				}
+			}
+			if rb, err := c17Addr(opts, viaParser); err == nil && rb != nil {
+				g2 := rb.GetOption(ks)
+				if s2, e2 := g2.Data(); g2 == nil || e2 != nil || s2 != want {
+					bad("getoption-depends-on-earlier-callers", fmt.Sprintf("GetOption(%q) on a fresh value = %q (err %v) after an earlier caller overwrote its result; stored value %q", k, s2, e2, want))
+				}
 			}
 		} else if got != nil {
 			gs, _ := got.Data()
